@@ -16,6 +16,8 @@ import CBV.Lemmas.C03Geom
 import CBV.Lemmas.C03Mono
 import CBV.Lemmas.C03Hist
 import CBV.Lemmas.C03Guards
+import CBV.Lemmas.C03Trans
+import CBV.Lemmas.C03Rev
 
 namespace CBV.C03
 
@@ -847,6 +849,99 @@ theorem T_C03_invert_count_c2c {t : Tol} {L r : ℚ} {n : ℕ} {o : Oracle} {res
 example : returned (calculate T0 1 {} { count := some 4, c2c := some (1 / 2) }) = some (some 4, some (1 / 8)) := by
   decide +kernel
 
+/-- (count, total expansion) reversed, end to end: the chop `(count, 1/T)` — with the mirrored solver answer `1/c` for
+    `(1/T) ** (1/(n-1))`, which is exact when `c` was — resolves to the same count, the reciprocal total expansion and the
+    reciprocal cell-to-cell ratio (both ratios on the same side of the `TOL` switch of the start-size formula). -/
+theorem T_C03_invert_count_total {L T : ℚ} {n : ℕ} {o : Oracle} {res : Vals} {c : ℚ}
+    (h : calculate T0 L o { count := some n, total := some T } = .ok res) (hc : o.c2c = some c)
+    (hb : (TOL < absR (c - 1) ∧ TOL < absR (1 / c - 1)) ∨ (absR (c - 1) ≤ TOL ∧ absR (1 / c - 1) ≤ TOL)) :
+    ∃ res', calculate T0 L { o with c2c := some (1 / c) } { count := some n, total := some (1 / T) } = .ok res' ∧
+      res'.count = res.count ∧ res'.total = res.total.map (fun T => 1 / T) ∧
+      res'.c2c = res.c2c.map (fun c => 1 / c) := by
+  obtain ⟨c', s, e, hc', hs, he, rfl⟩ := pair_count_total h
+  obtain ⟨hL, hn, hT, hoc, hpow⟩ := c2cCountTotal_ok hc'
+  have hcc : c' = c := by rw [hc] at hoc; exact (Option.some.inj hoc).symm
+  subst hcc
+  obtain ⟨hc0, hcp⟩ := powOK_zero hpow
+  have hci : 0 < 1 / c' := by positivity
+  have hTi : (1 : ℚ) / T ≠ 0 := by positivity
+  obtain ⟨s', hs'⟩ := startCountC2c_inv_ok hs hc0 hb
+  refine ⟨{ count := some n, start := some s', end_ := some (s' * (1 / T)), c2c := some (1 / c'),
+            total := some (1 / T) }, ?_, rfl, rfl, rfl⟩
+  rw [calculate_ok_iff (k := 2) (by exact plan_count_total), runSteps3]
+  refine ⟨{ count := some n, c2c := some (1 / c'), total := some (1 / T) },
+    { count := some n, start := some s', c2c := some (1 / c'), total := some (1 / T) }, ?_, ?_, ?_⟩
+  · simp only [applyRel, map_ok]
+    refine ⟨1 / c', ?_, rfl⟩
+    unfold c2cCountTotal
+    simp only [guardLen_bind, guardRatio_bind]
+    rw [if_neg (not_le.mpr hL), if_neg (by omega), if_neg hTi, if_neg (not_lt.mpr (by positivity))]
+    unfold oracleC2c
+    simp only
+    rw [if_pos]
+    · rfl
+    · rw [powOK_iff]
+      refine ⟨hci, ?_⟩
+      rw [one_div_pow, hcp]; simp
+  · simp only [applyRel, map_ok]
+    exact ⟨s', hs', rfl⟩
+  · simp only [applyRel, map_ok]
+    refine ⟨_, ?_, rfl⟩
+    unfold endStartTotal
+    simp only [guardLen_bind, guardRatio_bind]
+    rw [if_neg (not_le.mpr hL), if_neg hTi]
+    rfl
+
+
+example : returned (calculate T0 1 { c2c := some 2 } { count := some 4, total := some 8 }) = some (some 4, some 8) ∧
+    returned (calculate T0 1 { c2c := some (1 / 2) } { count := some 4, total := some (1 / 8) }) =
+      some (some 4, some (1 / 8)) ∧ TOL < absR ((2 : ℚ) - 1) ∧ TOL < absR (1 / (2 : ℚ) - 1) := by decide +kernel
+
+/-- (total expansion, cell-to-cell ratio) reversed, end to end: the chop `(1/T, 1/r)` resolves, with the *same* solver
+    answer for `int(log T / log r) + 1`, to the same count and the reciprocal total expansion (the reciprocal ratio
+    must itself be off the `TOL` switch, as the relation demands). -/
+theorem T_C03_invert_c2c_total {L r T : ℚ} {o : Oracle} {res : Vals}
+    (h : calculate T0 L o { c2c := some r, total := some T } = .ok res)
+    (hb : TOL < absR (1 / r - 1)) :
+    ∃ res', calculate T0 L o { c2c := some (1 / r), total := some (1 / T) } = .ok res' ∧
+      res'.count = res.count ∧ res'.total = res.total.map (fun T => 1 / T) := by
+  obtain ⟨n, s, e, hn, hs, he, rfl⟩ := pair_c2c_total h
+  obtain ⟨hL, hT, hr, hex, hside, ho, hn1, hok⟩ := countTotalC2c_ok hn
+  have hri : 0 < 1 / r := by positivity
+  have hTi : 0 < 1 / T := by positivity
+  obtain ⟨s', hs'⟩ := startCountC2c_inv_ok hs hr (Or.inl ⟨hex, hb⟩)
+  refine ⟨{ count := some n, start := some s', end_ := some (s' * (1 / T)), c2c := some (1 / r),
+            total := some (1 / T) }, ?_, rfl, rfl⟩
+  rw [calculate_ok_iff (k := 2) (by exact plan_c2c_total), runSteps3]
+  refine ⟨{ count := some n, c2c := some (1 / r), total := some (1 / T) },
+    { count := some n, start := some s', c2c := some (1 / r), total := some (1 / T) }, ?_, ?_, ?_⟩
+  · simp only [applyRel, map_ok]
+    refine ⟨n, ?_, rfl⟩
+    unfold countTotalC2c
+    simp only [guardLen_bind, guardRatio_bind]
+    have hside' : ¬ ((1 / T - 1) * (1 / r - 1) < 0) := by
+      have : (1 / T - 1) * (1 / r - 1) = (T - 1) * (r - 1) / (T * r) := by
+        field_simp
+        ring
+      rw [this]
+      exact not_lt.mpr (div_nonneg hside (by positivity))
+    rw [if_neg (not_le.mpr hL), if_neg (ne_of_gt hTi), if_neg (ne_of_gt hri), if_neg (not_le.mpr hb),
+      if_neg (by rintro (h | h) <;> linarith), if_neg hside']
+    exact oracleCount_intro ho hn1 (powCountOK_inv hr hT hok)
+  · simp only [applyRel, map_ok]
+    exact ⟨s', hs', rfl⟩
+  · simp only [applyRel, map_ok]
+    refine ⟨_, ?_, rfl⟩
+    unfold endStartTotal
+    simp only [guardLen_bind, guardRatio_bind]
+    rw [if_neg (not_le.mpr hL), if_neg (ne_of_gt hTi)]
+    rfl
+
+
+example : returned (calculate T0 1 { count := some 4 } { c2c := some 2, total := some 8 }) = some (some 4, some 8) ∧
+    returned (calculate T0 1 { count := some 4 } { c2c := some (1 / 2), total := some (1 / 8) }) =
+      some (some 4, some (1 / 8)) ∧ TOL < absR (1 / (2 : ℚ) - 1) := by decide +kernel
+
 /-! ### 7b. histories on one `Chop` object: `calculate` keeps no memory -/
 
 /-- Every `calculate` inside a history of calls on one object answers exactly what a fresh chop with the current
@@ -1053,5 +1148,90 @@ theorem T_C03_grading_sections {t : Tol} {L : ℚ} :
 example : (addChops T0 2 [] [(1 / 2, { count := some 8 }, { start := some (1 / 10), c2c := some (11 / 10) }),
       (1 / 2, {}, { count := some 4, c2c := some 2 })]).toOption.map (fun sp => (sp.map (·.count), gradingCount sp)) =
     some ([8, 4], 12) := by decide +kernel
+
+/-! ### 8. the bodies of the relations, translated from the source text at every run
+
+`cbv/tables/c03.py` turns (Python `ast`) the body of every `get_*` relation — validator calls, guards with their
+comparison operators and constants, branch order, every arithmetic expression, the `np.log` / `int` / `np.ceil` /
+`**` / `brentq` calls with their operands — into a prefix token list (`CBV.Gen.c03RelBodies`).  `relBodies` are the same
+bodies as trees of the model (`Stmt`), `run` is their semantics over exact rationals. -/
+
+/-- The trees the model holds are the source: their token encoding is the generated table, relation by relation in
+    the order of the relation table (and likewise the bodies of the four simple validators). -/
+theorem T_C03_translated_source :
+    relBodiesEnc = CBV.Gen.c03RelBodies ∧ relTable = some (relBodies.map (·.1)) ∧
+      validatorBodiesEnc = CBV.Gen.c03ValidatorBodies :=
+  ⟨relBodies_source, by decide, validatorBodies_source⟩
+
+/-- the bodies of `_validate_length`, `_validate_start_end_size`, `_validate_c2c_expansion`,
+    `_validate_total_expansion` reject exactly `<= 0`, `<= 0`, `== 0`, `== 0` — what `validateSem` (the meaning of a
+    validator call inside `run`) and the guards of the model functions implement -/
+theorem T_C03_translated_validators (P : Prims) (q : ℚ) :
+    validatorBodies.map (fun p => (p.1, run P (p.2.1.map (fun x => (x, LVal.num q))) (p.2.2 ++ [.ret (.lit 0)]))) =
+      [("_validate_length", if q ≤ 0 then .error .value else .ok 0),
+       ("_validate_start_end_size", if q ≤ 0 then .error .value else .ok 0),
+       ("_validate_c2c_expansion", if q = 0 then .error .value else .ok 0),
+       ("_validate_total_expansion", if q = 0 then .error .value else .ok 0)] :=
+  validators_sem P q
+
+/-- The five relations without a numeric library step: for all arguments (and whatever the slots answer) the tree of
+    the source evaluates to what the model function returns — same guards in the same order, same branch, same
+    closed formula, same `ZeroDivisionError`. -/
+theorem T_C03_translated_closed (P : Prims) (L a b : ℚ) (n : ℕ) :
+    run P (relEnv ⟨.start, .count, .c2c⟩ L n b) body_start_count_c2c = startCountC2c L n b ∧
+    run P (relEnv ⟨.start, .end_, .total⟩ L a b) body_start_end_total = startEndTotal L a b ∧
+    run P (relEnv ⟨.end_, .start, .total⟩ L a b) body_end_start_total = endStartTotal L a b ∧
+    run P (relEnv ⟨.total, .count, .c2c⟩ L n b) body_total_count_c2c = totalCountC2c L n b ∧
+    run P (relEnv ⟨.total, .start, .end_⟩ L a b) body_total_start_end = totalStartEnd L a b :=
+  ⟨run_start_count_c2c P L b n, run_start_end_total P L a b, run_end_start_total P L a b,
+   run_total_count_c2c P L b n, run_total_start_end P L a b⟩
+
+/-- The four count relations: for all arguments, tolerances and solver answers the tree of the source evaluates to the
+    model function.  Guards, the `TOL` switch, the operands of the logarithms (whose signs decide `nan` / `-inf`), the
+    `isnan` test, the sign test `count < 0`, `d_min` and the bracket `length / d_min` are evaluated from the tree;
+    `int(log A / log B) + 1`, `int(q) + 1`, `int(ceil q)`, `int(brentq …) + 1` are the oracle count under the model's
+    validator (`countOK` / `powCountOK` on the operands / `countTOK`). -/
+theorem T_C03_translated_count (t : Tol) (o : Oracle) (L a b : ℚ) :
+    run (primsCountStartC2c t o L a) (relEnv ⟨.count, .start, .c2c⟩ L a b) body_count_start_c2c =
+      natRes (countStartC2c t o L a b) ∧
+    run (primsCountEndC2c t o L a) (relEnv ⟨.count, .end_, .c2c⟩ L a b) body_count_end_c2c =
+      natRes (countEndC2c t o L a b) ∧
+    run (primsCountTotalC2c t o) (relEnv ⟨.count, .total, .c2c⟩ L a b) body_count_total_c2c =
+      natRes (countTotalC2c t o L a b) ∧
+    run (primsCountTotalStart t o L a b) (relEnv ⟨.count, .total, .start⟩ L a b) body_count_total_start =
+      natRes (countTotalStart t o L a b) :=
+  ⟨run_count_start_c2c t o L a b, run_count_end_c2c t o L a b, run_count_total_c2c t o L a b,
+   run_count_total_start t o L a b⟩
+
+/-- The three relations returning a cell-to-cell ratio: guards, the test `length > start_size > 0`, `count == 1`, the
+    near-uniform test `|count·size − length| / length < TOL`, the `ZeroDivisionError` of `1 / (count − 1)` come from
+    the tree; `brentq` (with its bracket test) and `T ** (1/(count−1))` are the oracle ratio under `rootOK` / `powOK`
+    (the latter on the operands of `**`). -/
+theorem T_C03_translated_c2c (t : Tol) (o : Oracle) (L x : ℚ) (n : ℕ) :
+    run (primsC2cCountStart t o L n x) (relEnv ⟨.c2c, .count, .start⟩ L n x) body_c2c_count_start =
+      c2cCountStart t o L n x ∧
+    run (primsC2cCountEnd t o L n x) (relEnv ⟨.c2c, .count, .end_⟩ L n x) body_c2c_count_end =
+      c2cCountEnd t o L n x ∧
+    run (primsC2cCountTotal t o) (relEnv ⟨.c2c, .count, .total⟩ L n x) body_c2c_count_total =
+      c2cCountTotal t o L n x :=
+  ⟨run_c2c_count_start t o L x n, run_c2c_count_end t o L x n, run_c2c_count_total t o L x n⟩
+
+/-- the trees compute: 3 cells, ratio 2 on a unit edge start with 1/7; a zero ratio is rejected by the validator -/
+example : (run (primsCountTotalC2c T0 {}) (relEnv ⟨.start, .count, .c2c⟩ 1 3 2) body_start_count_c2c).toOption = some (1 / 7) ∧
+    (run (primsCountTotalC2c T0 {}) (relEnv ⟨.start, .count, .c2c⟩ 1 3 0) body_start_count_c2c).toOption = none ∧
+    (run (primsCountTotalC2c T0 { count := some 4 }) (relEnv ⟨.count, .total, .c2c⟩ 1 8 2) body_count_total_c2c).toOption
+      = some 4 := by decide +kernel
+
+/-- `Chop.invert`, statement by statement as the source has it now (tuple swap of the sizes, `1 / c2c_expansion` and
+    `1 / total_expansion` under their `is not None` tests, the `preserve` field moved to the other end — in this order):
+    run on any parameter record it yields the model's `invert` and `swapPreserve`, and when a reciprocal raises
+    (`1 / 0`) it leaves exactly the half-inverted record `invertLeft` that the histories continue with. -/
+theorem T_C03_translated_invert :
+    encIBody invertBody = CBV.Gen.c03InvertBody ∧
+    ∀ (v : Vals) (p : Q), runI invertBody (v, p) =
+      match invert v with
+      | .ok w => ((w, swapPreserve p), none)
+      | .error e => ((invertLeft v, p), some e) :=
+  ⟨invertBody_source, runI_invert⟩
 
 end CBV.C03
